@@ -106,6 +106,12 @@ def arrivals(op, ver):
     return out
 
 
+def _size_tag(fd):
+    """payload size of a large frame (part of the key: a size-dependent defect is a different defect)"""
+    n = max((len(x) // 2 for x in fd if isinstance(x, str)), default=0)
+    return f"[{n}B]" if n > 32 else ""
+
+
 def shape(script):
     cfg = script["cfg"]
     parts = []
@@ -115,9 +121,11 @@ def shape(script):
             s += f"({op['atype']})"
         if op["op"] in ("write", "connect"):
             s += "<2000" if op["tmo"] < 2000 else ""
+        if op["op"] == "write" and len(op["data"]) > 64:
+            s += f"[{len(op['data']) // 2}B]"
         fr = op.get("frames") or []
         if fr:
-            s += "{" + ",".join(kind_of(f, cfg) for f in fr) + "}"
+            s += "{" + ",".join(kind_of(f, cfg) + _size_tag(f) for f in fr) + "}"
             if op.get("cuts"):
                 s += "/cut"
         parts.append(s)
@@ -326,6 +334,11 @@ def judge(script, impl, model):
     return j
 
 
+def _short(txt):
+    """a long message abbreviated for the report (the replay file has the complete case)"""
+    return txt if len(txt) <= 120 else f"{txt[:60]}..({len(txt)} chars)..{txt[-24:]}"
+
+
 def _judge(script, impl, model):
     src, tgt, ver = script["cfg"]
     alive_resp = struct.pack("!BBHL", ver, ver ^ 0xFF, 0x0008, 2).hex() + struct.pack("!H", src).hex()
@@ -358,7 +371,8 @@ def _judge(script, impl, model):
                 return ("write-result", bool(viol), f"op {i}: write gives {a['res']}, acknowledgement rule gives {b['res']}")
             if op["op"] == "read":
                 viol = ra.startswith("msg:") or rb.startswith("msg:") or ra.startswith("exc:") or ra == "stall"
-                return ("read-result", bool(viol), f"op {i}: read gives {a['res']}, frames in arrival order give {b['res']}")
+                return ("read-result", bool(viol),
+                        f"op {i}: read gives {_short(a['res'])}, frames in arrival order give {_short(b['res'])}")
             if op["op"] == "connect":
                 viol = (ra == "ok") != (rb == "ok") or ra.startswith("exc:") or ra == "stall"
                 return ("connect-result", bool(viol), f"op {i}: connect gives {a['res']}, response code rule gives {b['res']}")
@@ -613,6 +627,71 @@ def gen_scripts(ctx):
     yield (("connect:timing", {"cfg": list(CFGS[0]), "ops": [{"op": "connect", "atype": 0, "tmo": 5000}]}))
     ctx.exhaustive_parts.append("routing activation request bytes for all 256 activation types (x protocol versions "
                                 "{0,1,2,3,255}, boundary addresses); all 256 routing activation response codes")
+
+    # 7. message sizes: DoIP carries a 32 bit payload length and knows no 4095 byte (ISO-TP) limit.  Diagnostic messages
+    # with user data of every size class in every phase; requests of every size class acknowledged with the request
+    # echoed completely / partially / not at all / wrongly, whole and cut inside the large frame
+    yield from gen_sizes(ctx)
+
+
+SIZES = [0, 1, 4090, 4091, 4094, 4095, 4096, 4097, 65535, 70000]
+
+
+def sized(n, first):
+    return (bytes([first & 0xFF]) + bytes((i * 7 + 3) & 0xFF for i in range(max(n - 1, 0))))[:n]
+
+
+def gen_sizes(ctx):
+    rng = ctx.rng
+    n_scripts = 0
+    sizes = list(SIZES) + [rng.choice([2, 255, 256, 4092, 4093, 4098, 4099, 4100, 8191, 65536, rng.randrange(5, 70000)])
+                           for _ in range(ctx.pick(2, 8))]
+    for i, n in enumerate(sizes):
+        cfg = CFGS[0] if i % 3 else CFGS[i % len(CFGS)]
+        src, tgt, ver = cfg
+        okack = ["ackp", tgt, src, ""]
+        big = ["diag", tgt, src, sized(n, 0x62).hex()]
+        other = ["diag", (tgt + 1) & 0xFFFF, src, sized(n, 0x7F).hex()]
+        small = ["diag", tgt, src, "6209"]
+        L = len(enc(big, ver))
+        for frames in ([big], [big, small], [small, big], [other, big], [["alive", ""], big, ["alive", ""]]):
+            for pos in POSITIONS:
+                d0 = 300 if pos in ("ack", "read") else 10
+                yield (f"sizes:diag:{pos}", template(frames, pos, cfg))
+                n_scripts += 1
+            k = rng.choice([1, 7, 8, 9, 12, L // 2, L - 1, rng.randrange(1, L)])
+            pos = rng.choice(POSITIONS)
+            d0 = 300 if pos in ("ack", "read") else 10
+            if 0 < k < L:
+                yield (f"sizes:diag-cut:{pos}", template(frames, pos, cfg, cuts=[[k, d0 + 40]]))
+                n_scripts += 1
+        req = sized(n, 0x36)
+        echoes = {"full": req, "half": req[:n // 2], "one": req[:1], "none": b"", "all-but-one": req[:max(n - 1, 0)],
+                  "longer": req + b"\x00", "wrong-last": req[:-1] + bytes([req[-1] ^ 1]) if n else b"\x01"}
+        for ename, echo in echoes.items():
+            for kind in ("ackp", "ackn6", "ackn3"):
+                if kind != "ackp" and ename not in ("full", "none", "wrong-last"):
+                    continue
+                if kind == "ackp":
+                    ack = ["ackp", tgt, src, echo.hex()]
+                else:
+                    ack = ["ackn", tgt, src, int(kind[4:]), echo.hex()]
+                for pre in ([], [small]):
+                    yield (f"sizes:write:{ename}", {"cfg": list(cfg), "ops": [
+                        op_write(data=req, frames=pre + [ack, big], delay=300), op_read(200), op_read(200),
+                        op_write(frames=[okack], delay=5)]})
+                    n_scripts += 1
+        La = len(enc(["ackp", tgt, src, req.hex()], ver))
+        k = rng.choice([8, 13, La // 2, La - 1])
+        if 0 < k < La:
+            yield ("sizes:write-cut", {"cfg": list(cfg), "ops": [
+                op_write(data=req, frames=[["ackp", tgt, src, req.hex()], small], delay=300, cuts=[[k, 700]]),
+                op_read(200), op_read(200)]})
+            n_scripts += 1
+    ctx.exhaustive_parts.append(
+        f"message sizes {SIZES} (+ seeded ones): diagnostic messages with that much user data alone / before / behind "
+        f"other frames x injection position, requests of that size acknowledged (positive / TargetUnreachable / refused) "
+        f"with the request echoed completely, partially, not at all, too long or wrong in the last byte ({n_scripts} scripts)")
 
 
 # --------------------------------------------------------------------------------------------------------------
